@@ -134,20 +134,24 @@ def parseDID (s : Bytes) : Res DID :=
 
 /-! ### DIDToURL / URLToDID -/
 
+def colonToSlash (c : Nat) : Nat := if c = cColon then cSlash else c
+
+/-- the sub-path of a did:web identifier: everything from the first ':' on, with ':' replaced by '/' -/
+def didPath (id : Bytes) : Bytes :=
+  match (cut cColon id).2 with
+  | some t => cSlash :: t.map colonToSlash
+  | none => []
+
 /-- `DIDToURL` -/
 def didToURL (dec : List Nat) (d : DID) : Res URL :=
   if d.method ≠ sWeb then .err "method" else
-  let (baseID, tl) := cut cColon d.id
-  let path : Bytes := match tl with
-    | some t => (cColon :: t).map fun c => if c = cColon then cSlash else c
-    | none => []
-  if tl.isSome && (hasSuffix [cSlash] path || hasDouble cSlash path) then .err "empty-path-element" else
-  match pathUnescape baseID with
+  if (cut cColon d.id).2.isSome && (hasSuffix [cSlash] (didPath d.id) || hasDouble cSlash (didPath d.id)) then
+    .err "empty-path-element" else
+  match pathUnescape (cut cColon d.id).1 with
   | .err _ => .err "unescape"
   | .panic p => .panic p
   | .ok unescapedID =>
-    let target := sHttpsSS ++ unescapedID ++ percentDecode dec path
-    match parseURL target with
+    match parseURL (sHttpsSS ++ unescapedID ++ percentDecode dec (didPath d.id)) with
     | .err _ => .err "parse"
     | .panic p => .panic p
     | .ok u =>
